@@ -14,7 +14,7 @@ NAN = float('nan')
 
 
 # ------------------------------------------------------------------------------------------------ compare
-def make_compare_pair(work, rng, family, nbands=1):
+def make_compare_pair(work, rng, family, nbands=1, signed=None):
     """Source / reference with exactly known processing-grid pixel pairs.
     family 'same': same grid (integer offset);  'avg2' / 'avg4': source 2x / 4x finer, aligned, masks on whole reference pixels."""
     ratio = dict(same=1, avg2=2, avg4=4)[family]
@@ -45,6 +45,24 @@ def make_compare_pair(work, rng, family, nbands=1):
     encs = [dict(encoding='nan'), dict(encoding='nodata', nodata=-9999.0), dict(encoding='nodata', nodata=0.0), dict(encoding='mask', hidden=50.0),
             dict(encoding='nodata', nodata=-9999, dtype='int16'), dict(encoding='nodata', nodata=0, dtype='uint8'), dict(encoding='nan')]
     senc, renc = rng.choice(encs), rng.choice(encs)
+    if signed:
+        # data that are not reflectances (temperatures, dB, differences): every value negative ('neg'), or values of both signs ('mixed');
+        # integers still, so every encoding that can hold them stays lossless; no band sums to exactly 0 over the jointly valid pixels
+        # (a relative error is not defined against a zero mean)
+        shift = (2 * vmax + 3) if signed == 'neg' else (vmax // 2 if ratio == 1 else 4)
+        src, ref = src - np.float32(shift), ref - np.float32(shift)
+        jm = pm & rmask[off[0]:off[0] + ph, off[1]:off[1] + pw]
+        for b in range(nbands):
+            sub = src[b].reshape(ph, ratio, pw, ratio).mean(axis=(1, 3))
+            if jm.any() and float(sub[jm].sum()) == 0.0:
+                r, c = (int(v) for v in np.argwhere(jm)[0])
+                src[b, r * ratio:(r + 1) * ratio, c * ratio:(c + 1) * ratio] += 1
+            rw = ref[b, off[0]:off[0] + ph, off[1]:off[1] + pw]
+            if jm.any() and float(rw[jm].sum()) == 0.0:
+                r, c = (int(v) for v in np.argwhere(jm)[0])
+                rw[r, c] += 1
+        signed_encs = [dict(encoding='nan'), dict(encoding='nodata', nodata=-9999.0), dict(encoding='mask', hidden=50.0), dict(encoding='nodata', nodata=-9999, dtype='int16')]
+        senc, renc = signed_encs[encs.index(senc) % 4], signed_encs[encs.index(renc) % 4]
     synth.write_tif(sfn, src, g.src_transform, mask=smask, **senc)
     synth.write_tif(rfn, ref, g.ref_transform, mask=rmask, **renc)
     return dict(src_fn=sfn, ref_fn=rfn, geom=g, src=src, ref=ref, smask=smask, rmask=rmask, pm=pm, ratio=ratio, off=off, family=family,
@@ -127,7 +145,7 @@ def compare_oracle(res, rtol=1e-8):
 
 
 # ------------------------------------------------------------------------------------------------ parameter statistics
-def make_param_image(work, rng, nb, model, thresh, layout, shape=None, same_names=False):
+def make_param_image(work, rng, nb, model, thresh, layout, shape=None, same_names=False, footprint=None):
     """Synthetic parameter image (3 * nb bands, float32, NaN nodata) with the tags and descriptions stats() requires."""
     H, W = shape or (rng.randint(20, 48), rng.randint(20, 48))
     arr = np.zeros((3 * nb, H, W), 'float32')
@@ -136,6 +154,10 @@ def make_param_image(work, rng, nb, model, thresh, layout, shape=None, same_name
     if k:
         base[:k] = base[-k:] = False
         base[:, :k] = False
+    if footprint == 'L':
+        # an L-shaped footprint (a rotated / clipped scene): the upper-left quarter holds no data, so whole internal tiles INSIDE the data
+        # window are empty - and the first tile of every band is one of them
+        base[:H // 2, :W // 2] = False
     for b in range(3 * nb):
         kind = b // nb
         vals = np.array([[rng.uniform(0.2, 3.0) if kind == 0 else (rng.uniform(-30, 30) if kind == 1 else rng.uniform(-0.5, 1.0))
